@@ -1,6 +1,9 @@
 package c13
 
 import (
+	"crypto/hmac"
+	"crypto/sha256"
+	"encoding/hex"
 	"encoding/json"
 	"fmt"
 	"net"
@@ -34,6 +37,8 @@ type Stress struct {
 	Seq        []string // transport of the 2nd, 3rd … cycle (empty: as the first): restarts that switch transport
 	KeepFields bool     // a restart leaves Listener / PacketConn of the previous run in the Server value where the API
 	//                      allows it (ListenAndServe overwrites only the field it uses; ActivateAndServe on a PacketConn ignores a stale Listener)
+	TsigDelayUs int // > 0: the server has a TsigProvider whose Verify takes this long, clients sign every request,
+	//                     the handler requires TsigStatus() == nil (the read loop must not touch a request still being verified)
 	MaxTCP      int    // Server.MaxTCPQueries
 	SecondStart string // timed mode: "" | activate | listen – a second ActivateAndServe / ListenAndServe once started (must fail at once)
 }
@@ -48,6 +53,9 @@ func genStress(t *rapid.T) Stress {
 		Restarts:  rapid.SampledFrom([]int{1, 1, 2, 3}).Draw(t, "cycles"),
 	}
 	s.MaxTCP = rapid.SampledFrom([]int{-1, -1, 0, 0, 1, 2, 128}).Draw(t, "maxTCP")
+	if rapid.IntRange(0, 9).Draw(t, "tsig") < 4 {
+		s.TsigDelayUs = rapid.SampledFrom([]int{1, 20, 100, 300}).Draw(t, "tsigDelay")
+	}
 	if s.Restarts > 1 && rapid.IntRange(0, 9).Draw(t, "switch") < 6 {
 		// a Server value that served one transport is restarted on another one
 		if rapid.Bool().Draw(t, "firstLns") {
@@ -81,6 +89,9 @@ var ipv6Loopback = sync.OnceValue(func() bool {
 })
 
 type stressRun struct {
+	tsigBad  atomic.Int32
+	tsigOK   atomic.Int32
+	tsigMsg  atomic.Value
 	noV6     bool
 	nonce    string
 	s        Stress
@@ -91,9 +102,46 @@ type stressRun struct {
 	overlap  atomic.Int32 // Shutdown was called while a handler was active (sampled)
 }
 
+// slowProvider is an HMAC-SHA256 TsigProvider whose Verify can be made slow: the request octets
+// must stay untouched for as long as the server needs to verify them.
+type slowProvider struct {
+	key   []byte
+	delay time.Duration
+}
+
+func (p slowProvider) Generate(msg []byte, t *dns.TSIG) ([]byte, error) {
+	h := hmac.New(sha256.New, p.key)
+	h.Write(msg)
+	return h.Sum(nil), nil
+}
+
+func (p slowProvider) Verify(msg []byte, t *dns.TSIG) error {
+	if p.delay > 0 {
+		time.Sleep(p.delay)
+	}
+	mac, err := hex.DecodeString(t.MAC)
+	want, _ := p.Generate(msg, t)
+	if err != nil || !hmac.Equal(mac, want) {
+		return dns.ErrSig
+	}
+	return nil
+}
+
+const stressTsigKey = "stress-key."
+
 func (r *stressRun) handler(w dns.ResponseWriter, req *dns.Msg) {
 	if r.returned.Load() {
 		r.late.Add(1)
+	}
+	if r.s.TsigDelayUs > 0 && len(req.Question) == 1 && strings.Contains(req.Question[0].Name, r.nonce) {
+		// every request of this run was signed correctly by its client
+		if req.IsTsig() == nil || w.TsigStatus() != nil {
+			if r.tsigBad.Add(1) == 1 {
+				r.tsigMsg.Store(fmt.Sprintf("request %s: TSIG present=%v, TsigStatus()=%v", req.Question[0].Name, req.IsTsig() != nil, w.TsigStatus()))
+			}
+		} else {
+			r.tsigOK.Add(1)
+		}
 	}
 	r.active.Add(1)
 	n := r.handled.Add(1)
@@ -115,6 +163,9 @@ func checkStress(s Stress) error {
 	}
 	r := &stressRun{s: s, nonce: newNonce()}
 	srv := &dns.Server{ReadTimeout: time.Hour, IdleTimeout: func() time.Duration { return time.Hour }, Handler: dns.HandlerFunc(r.handler), MaxTCPQueries: s.MaxTCP}
+	if s.TsigDelayUs > 0 {
+		srv.TsigProvider = slowProvider{key: []byte("stress secret"), delay: time.Duration(s.TsigDelayUs) * time.Microsecond}
+	}
 	overlapAny := false
 	for cycle := 0; cycle < s.Restarts; cycle++ {
 		ov, err := r.cycle(srv, cycle)
@@ -148,6 +199,9 @@ func checkStress(s Stress) error {
 	}
 	if r.handled.Load() > 0 {
 		cl = append(cl, "handled>0")
+	}
+	if r.tsigOK.Load() > 0 {
+		cl = append(cl, "tsig-verified-by-slow-provider")
 	}
 	pbt.Note(key, overlapAny || s.Mode == "blind" || s.Restarts > 1, cl...)
 	return nil
@@ -279,9 +333,15 @@ func (r *stressRun) cycle(srv *dns.Server, cycle int) (overlap bool, err error) 
 				return
 			}
 			co := &dns.Conn{Conn: c}
+			if s.TsigDelayUs > 0 {
+				co.TsigProvider = slowProvider{key: []byte("stress secret")}
+			}
 			for q := 1; q <= s.Reqs; q++ {
 				m := new(dns.Msg)
 				m.SetQuestion(fmt.Sprintf("q%d.c%d.y%d.%s.test.", q, j, cycle, r.nonce), dns.TypeTXT)
+				if s.TsigDelayUs > 0 {
+					m.SetTsig(stressTsigKey, dns.HmacSHA256, 300, time.Now().Unix())
+				}
 				if co.WriteMsg(m) != nil {
 					return
 				}
@@ -444,6 +504,9 @@ func (r *stressRun) cycle(srv *dns.Server, cycle int) (overlap bool, err error) 
 	}
 	if n := r.late.Load(); n != 0 {
 		return false, fmt.Errorf("I3: %d handler(s) were started after Shutdown had returned", n)
+	}
+	if n := r.tsigBad.Load(); n != 0 {
+		return false, fmt.Errorf("%d correctly signed request(s) reached the handler unverified or with a bad TsigStatus (the request octets changed while they were being verified): %v", n, r.tsigMsg.Load())
 	}
 	mu.Lock()
 	b := append([]string(nil), bad...)
